@@ -1,6 +1,6 @@
 """Engine A support: abstract SU_vector objects with symbolic components, hooks that model the few
 external calls that occur in the algebra kernels, and extraction of the basis tables."""
-from interp import (Interp, Hooks, Obj, Region, Ptr, Cell, Opaque, Unsupported, Thrown, NULL, UNDEF, ITE, Cond,
+from interp import (Interp, Hooks, Obj, Region, Ptr, Cell, Opaque, Unsupported, Thrown, NULL, UNDEF, ITE, Cond, OutOfBounds,
                     wrap_int)
 from poly import Poly, CPoly, mat_zero
 from astdb import AnalysisBroken
@@ -40,6 +40,52 @@ def complex_parts(v):
     raise Unsupported('not a gsl_complex: %r' % (v,))
 
 
+class LiveCell(Cell):
+    """a double inside the raw storage of an abstract matrix: reads and writes go to the matrix entries"""
+    __slots__ = ('m', 'k')
+
+    def __init__(self, m, region, k):
+        self.m = m
+        self.k = k
+        self.region = region
+        self.idx = k
+        self.name = None
+
+    def _pos(self):
+        e = self.k // 2
+        return e // self.m.tda, e % self.m.tda
+
+    @property
+    def value(self):
+        r, c = self._pos()
+        if c >= self.m.n2:
+            return Poly.var('PAD_%s_%d_%d' % (self.m.name, r, c))  # storage between the rows of a view: not part of the matrix
+        z = self.m.get(r, c)
+        return z.re if self.k % 2 == 0 else z.im
+
+    @value.setter
+    def value(self, v):
+        r, c = self._pos()
+        if c >= self.m.n2:
+            raise Unsupported('write into the row padding of matrix %s' % self.m.name)
+        old = self.m.entries.get((r, c)) or CPoly(Poly(), Poly())
+        p = v if isinstance(v, Poly) else Poly.const(v)
+        self.m.entries[(r, c)] = CPoly(p, old.im) if self.k % 2 == 0 else CPoly(old.re, p)
+
+
+class RawMatrixData(Region):
+    def __init__(self, m):
+        Region.__init__(self, m.name + '.data', 2 * (m.n2 + 1) * m.n1, None, 'heap')
+        self.m = m
+
+    def cell(self, i):
+        if isinstance(i, int) and not (0 <= i < self.size):
+            raise OutOfBounds(self, i)
+        if not isinstance(i, int):
+            raise Unsupported('symbolic index into raw matrix storage')
+        return LiveCell(self.m, self, i)
+
+
 class GslMatrix:
     """abstract gsl_matrix_complex: entries are CPoly (or None = never set)"""
 
@@ -52,7 +98,13 @@ class GslMatrix:
         o = Obj('gsl_matrix_complex', None, name)
         o.field('size1').value = n1
         o.field('size2').value = n2
-        o.field('tda').value = n2
+        # raw storage as GSL exposes it: row-major, re/im interleaved, with a row stride that may exceed size2
+        # (a matrix can be a view into a wider one).  The abstract matrix uses the general case tda = size2+1, so
+        # code that walks `data` assuming contiguous rows reads the padding instead of the next row.
+        self.tda = n2 + 1
+        o.field('tda').value = self.tda
+        self.raw = RawMatrixData(self)
+        o.field('data').value = Ptr(self.raw, 0)
         self.obj = o
         self.region = Region(name, 1, None, 'heap', {'gsl': self})
         self.region.cell(0).value = o
